@@ -57,6 +57,9 @@ pub enum Action {
     Edit { t: u8, at: i64, muts: Vec<crate::taskmodel::Mut> },
     /// a raw protocol call on this node's server handle (C08)
     Srv { call: SrvCall },
+    /// one of the older convenience methods of Replica (C19): 0 new_task, 1 update_task,
+    /// 2 delete_task, 3 import_task_with_uuid, 4 add_undo_point
+    Legacy { kind: u8, t: u8, arg: u8, at: i64 },
 }
 
 #[derive(Serialize, Deserialize, Clone, Debug, PartialEq)]
@@ -1130,6 +1133,7 @@ fn make_node(n: usize, w: Rc<RefCell<World>>) -> NodeFut {
                 Action::Expire { at } => do_expire(n, a, &w, &mut replica, *at).await,
                 Action::Edit { t, at, muts } => crate::taskmodel::do_edit(n, a, &w, &mut replica, *t, *at, muts).await,
                 Action::Srv { call } => do_srv(n, a, &w, &mut server, call).await,
+                Action::Legacy { kind, t, arg, at } => crate::taskmodel::do_legacy(n, a, &w, &mut replica, *kind, *t, *arg, *at).await,
             }
             post_check(n, &w, &format!("action {a}"));
         }
@@ -2197,7 +2201,13 @@ pub fn gen_c19(seed: u64, i: u64, _thorough: bool) -> Value {
         for _ in 0..len {
             match rng.below(20) {
                 0..=2 => sc.push(Action::Sync { avoid: true }),
-                3 => sc.push(Action::Rebuild { renumber: rng.chance(1, 2) }),
+                3 => {
+                    if rng.chance(1, 2) {
+                        sc.push(Action::Rebuild { renumber: rng.chance(1, 2) })
+                    } else {
+                        sc.push(Action::Legacy { kind: rng.below(5) as u8, t: rng.below(tasks as u64) as u8, arg: rng.below(6) as u8, at: rng.range(-400, 400) * DAY })
+                    }
+                }
                 4..=5 => {
                     let t = rng.below(tasks as u64) as u8;
                     let d = rng.below(tasks as u64) as u8;
